@@ -51,3 +51,18 @@ Example ex_tab :
   | Err _ => False
   end.
 Proof. vm_compute. repeat split. Qed.
+
+(* C03 / C07: the part of build_dispatch_tables that assigns `next` (run by every update, for every definition): what the
+   translated loop body stores through a definition's next pointer is, for every definition, the cell the model computes —
+   the single best of the strictly more general definitions, else the not-implemented stub when there is none, else the
+   ambiguity stub (is_base and best are the translated functions of Properties_core_source.v) *)
+Theorem C03_source_next : forall L specs sp,
+  run_next L specs sp gen_next_body
+  = Some (cell_of (best L specs (filter (fun o => is_base L (nth o specs []) sp false) (seq 0 (length specs))))).
+Proof. exact src_next. Qed.
+Print Assumptions C03_source_next.
+
+Theorem C03_source_nexts : forall L m,
+  map (fun sp => run_next L (cm_specs m) sp gen_next_body) (cm_specs m) = map Some (t_nexts (build_method L m)).
+Proof. exact src_nexts. Qed.
+Print Assumptions C03_source_nexts.
